@@ -159,6 +159,7 @@ const (
 type qspec struct {
 	name, parent, alloc int64
 	state               int64 // Status.State: 0 "", 1 Open, 2 Closed, 3 Closing, 4 Unknown
+	term                bool  // metadata.deletionTimestamp is set (read back from the stored objects only)
 	cap, des, guar      rl
 }
 
@@ -256,14 +257,11 @@ type world struct {
 	dry      bool
 	// requests on which GetQueuesByParent's two lookup paths led to different verdicts
 	pathsDisagree int
-	// a finalizer removal left children without their parent (known finding C10-child-under-terminating-parent):
-	// the generator ends the history there
-	orphaned bool // validate only: an admitted request is not applied (concurrent admissions)
-	cfg      config
-	indexer  cache.Indexer
-	inf      cache.SharedIndexInformer
-	lister   schedulinglister.QueueLister
-	svc      *router.AdmissionService
+	cfg           config
+	indexer       cache.Indexer
+	inf           cache.SharedIndexInformer
+	lister        schedulinglister.QueueLister
+	svc           *router.AdmissionService
 }
 
 func newWorld(cfg config, q0 []qspec) *world {
@@ -338,6 +336,7 @@ const (
 	vSubtreeDepth = 20
 	vNotInvoked   = 21
 	vRootParent   = 22
+	vParentTerm   = 23
 	vNotRun       = 98
 )
 
@@ -346,6 +345,8 @@ func classify(msg string) int64 {
 	switch {
 	case has("root queue cannot have a parent"):
 		return vRootParent
+	case has("because it is being deleted"):
+		return vParentTerm
 	case has("cannot use itself as parent"):
 		return vSelfParent
 	case has("cannot be moved under its own descendant"):
@@ -501,19 +502,10 @@ func (w *world) step1(r request) int64 {
 		if old == nil {
 			return vNotInvoked
 		}
-		// the API server drops the object unconditionally, children or not (root and default can never be
-		// terminating: their DELETE is always refused)
-		kids := 0
-		for _, o := range w.indexer.List() {
-			if o.(*schedulingv1beta1.Queue).Spec.Parent == old.Name {
-				kids++
-			}
-		}
-		if r.q.name != 1 && r.q.name != 2 && !w.dry {
+		// the API server drops a TERMINATING object once its finalizers are gone, children or not (root and
+		// default can never be terminating: their DELETE is always refused)
+		if old.DeletionTimestamp != nil && r.q.name != 1 && r.q.name != 2 && !w.dry {
 			w.indexer.Delete(old)
-			if kids > 0 {
-				w.orphaned = true // children of the removed queue now name a parent that does not exist
-			}
 		}
 		return vAllowed
 	}
@@ -606,6 +598,7 @@ func specOf(o *schedulingv1beta1.Queue) qspec {
 	if a, ok := o.Status.Allocated[v1.ResourcePods]; ok {
 		q.alloc = a.Value()
 	}
+	q.term = o.DeletionTimestamp != nil
 	for k, n := range stateName {
 		if n == o.Status.State {
 			q.state = k
@@ -627,7 +620,11 @@ func (w *world) dump() []int64 {
 	qs := w.queues()
 	out := []int64{int64(len(qs))}
 	for _, q := range qs {
-		out = append(out, q.enc()...)
+		e := q.enc()
+		// the stored set also shows which queues are terminating (after the four head tokens)
+		out = append(out, e[:4]...)
+		out = append(out, vh.B(q.term))
+		out = append(out, e[4:]...)
 	}
 	return out
 }
@@ -773,56 +770,6 @@ func run(sel int, in []int64) []int64 {
 // 101 tree shape, 102 per-queue resources, 103 children sums, 104 capability vs
 // nearest ancestor, 105 delete guard as the code implements it, 106 the capacity plugin accepts the
 // final hierarchy, 107 no admitted DELETE of a queue with allocated pods (full strength).
-// orphanSig: the mechanism of known finding C10-child-under-terminating-parent occurred in the history - the
-// finalizer of a TERMINATING queue (an admitted DELETE with finalizer came before) was removed while queues
-// admitted under it still name it as parent.  Computed from the tokens and the verdicts; only law 101 carries it.
-func orphanSig(h history, got []int64) string {
-	type sh struct {
-		parent int64
-		term   bool
-	}
-	shadow := map[int64]*sh{}
-	for _, q := range h.q0 {
-		if _, dup := shadow[q.name]; !dup {
-			shadow[q.name] = &sh{parent: q.parent}
-		}
-	}
-	for i, r := range h.reqs {
-		if got[2*i+1] != vAllowed {
-			continue
-		}
-		e, exists := shadow[r.q.name]
-		switch r.kind {
-		case kCreate:
-			if !exists {
-				shadow[r.q.name] = &sh{parent: r.q.parent}
-			}
-		case kUpdate:
-			if exists {
-				e.parent = r.q.parent
-			}
-		case kDelete:
-			delete(shadow, r.q.name)
-		case kDeleteFin:
-			if exists {
-				e.term = true
-			}
-		case kGone:
-			if exists && r.q.name > 2 {
-				kids := false
-				for _, x := range shadow {
-					kids = kids || x.parent == r.q.name
-				}
-				if kids && e.term {
-					return "C10-child-under-terminating-parent"
-				}
-				delete(shadow, r.q.name)
-			}
-		}
-	}
-	return ""
-}
-
 func laws(sel int, in, got []int64, law func(lsel int, lin []int64, sig string)) {
 	if sel != 1 {
 		return // concurrent pairs break the invariant by construction: no law is demanded of them
@@ -833,7 +780,7 @@ func laws(sel int, in, got []int64, law func(lsel int, lin []int64, sig string))
 	for i := range h.reqs {
 		lin = append(lin, got[2*i+1])
 	}
-	law(101, lin, orphanSig(h, got))
+	law(101, lin, "")
 	law(102, lin, "")
 	law(103, lin, "")
 	law(104, lin, "")
@@ -844,11 +791,14 @@ func laws(sel int, in, got []int64, law func(lsel int, lin []int64, sig string))
 	// (the default) the webhook does not look at the allocated pods; the sig names exactly that class.
 	sig := ""
 	if h.cfg.allocCheck == 0 {
-		type sh struct{ alloc, parent int64 }
+		type sh struct {
+			alloc, parent int64
+			term          bool
+		}
 		shadow := map[int64]*sh{}
 		for _, q := range h.q0 {
 			if _, dup := shadow[q.name]; !dup {
-				shadow[q.name] = &sh{q.alloc, q.parent}
+				shadow[q.name] = &sh{alloc: q.alloc, parent: q.parent}
 			}
 		}
 		for i, r := range h.reqs {
@@ -859,7 +809,7 @@ func laws(sel int, in, got []int64, law func(lsel int, lin []int64, sig string))
 			switch r.kind {
 			case kCreate:
 				if !exists {
-					shadow[r.q.name] = &sh{0, r.q.parent}
+					shadow[r.q.name] = &sh{parent: r.q.parent}
 				}
 			case kUpdate:
 				if exists {
@@ -875,6 +825,8 @@ func laws(sel int, in, got []int64, law func(lsel int, lin []int64, sig string))
 				}
 				if r.kind == kDelete {
 					delete(shadow, r.q.name)
+				} else if exists {
+					e.term = true
 				}
 			case kGone:
 				kids := false
@@ -882,7 +834,7 @@ func laws(sel int, in, got []int64, law func(lsel int, lin []int64, sig string))
 					kids = kids || x.parent == r.q.name
 				}
 				_ = kids
-				if exists && r.q.name > 2 {
+				if exists && e.term && r.q.name > 2 {
 					delete(shadow, r.q.name)
 				}
 			}
